@@ -3,6 +3,7 @@ import TaskModel.Vars.Dotenv
 import TaskModel.Vars.Cli
 import TaskModel.Vars.Compile
 import TaskModel.Vars.EnvPipe
+import TaskModel.Vars.World
 import Driver.Util
 /-!
 `vars.resolve <rootDir> <dirAfter> <ntpl> part* <nbase> (name val)* { <ndefs> (name kind <nparts> part*)* }×6 <nq> name*`
@@ -205,6 +206,29 @@ def doEnvPipe : P String := do
   pure (" ".intercalate (qs.map (fun q => showStr (get st.env q) ++ "/" ++
       (match commandSees w ce.1 q with | some v => showStr v | none => "none")) ++ ["dir=" ++ showStr dir]))
 
+/-- `vars.fshist <rootDir> <global 0|1> <nfiles> (path content)* <ncalls> { <dirRel> <fileName> <nwrites> (path content)* }*`
+— a sequence of calls in one invocation: every call compiles its task (`V: {sh: cat <file>}` in the task's directory; with
+`global`, the root's `G: {sh: cat g.txt}`), then its commands rewrite files.  Answer: per call `<V>/<G>` as the history of
+`Vars.World` gives them (the dynamic-variable cache carries over, the world changes). -/
+def doFsHist : P String := do
+  let root ← str; let glob ← bool
+  let nf ← nat; let files ← many nf (do let p ← str; let c ← str; pure (p, c))
+  let nc ← nat
+  let calls ← many nc (do
+    let d ← str; let f ← str; let nw ← nat
+    let ws ← many nw (do let p ← str; let c ← str; pure (p, c))
+    pure (d, f, ws))
+  let gname : Str := [103, 46, 116, 120, 116]
+  let evs : List Ev := calls.flatMap (fun (c : Str × Str × List (Str × Str)) =>
+    let defs : Site → List (Name × VarDef) := fun s =>
+      match s with
+      | .taskfileVars => if glob then [(1, .sh [.text gname] none)] else []
+      | .taskVars => [(0, .sh [.text c.2.1] none)]
+      | _ => []
+    Ev.compile ⟨root, (if c.1 = [] then [] else [.text c.1]), 3⟩ [] (layersOf defs) :: c.2.2.map (fun w => Ev.effect (writeFile w.1 w.2)))
+  let envs := histEnvs ⟨catShell, [], false⟩ evs (files.reverse, [])
+  pure (" ".intercalate (envs.map (fun e => showStr (get e 0) ++ "/" ++ showStr (get e 1))))
+
 def handle (op : String) (args : List String) : Option String :=
   let run (p : P String) := match p.run args with | some (r, []) => some r | _ => none
   match op with
@@ -220,6 +244,9 @@ def handle (op : String) (args : List String) : Option String :=
   | "vars.cli" => run doCli
   | "vars.compile" => run doCompile
   | "vars.envpipe" => run doEnvPipe
+  | "vars.fshist" => run doFsHist
+  -- monitor of C11 over the file system: `vars.fsmon <call> <what the call reads ALONE in the world as it is>`
+  | "vars.fsmon" => match args with | [_, want] => some want | _ => none
   -- monitor of "special variables are available": `vars.climon <name> <value the rule demands>`
   | "vars.climon" => match args with | [_, want] => some want | _ => none
   -- monitor of "available unless overridden" for the POST layer: `vars.postmon <name> <value the rule demands>`
